@@ -526,8 +526,13 @@ func c05PathPred(path string, st [][2]string) string {
 		return "key between 'k' and 'l'"
 	case "mget":
 		ks := []string{"'k999'"}
-		for _, kv := range st {
+		for i, kv := range st {
 			ks = append(ks, "'"+kv[0]+"'")
+			if i%2 == 1 {
+				// a listed key that is not stored, in the MIDDLE of the list: the sub-chunk
+				// read there comes out short
+				ks = append(ks, "'"+kv[0]+"!'")
+			}
 		}
 		ks = append(ks, "'j0'")
 		return "key in (" + strings.Join(ks, ", ") + ")"
